@@ -587,7 +587,8 @@ func c01TypedValues(thorough bool, visit func(tv)) {
 		visit(tv{Lit: "1", Rules: []string{`type: "` + f + `"`}, Witness: `"` + wit + `"`, Family: "format-" + f})
 	}
 	// (e) explicit scalar types, const, nullable on every kind
-	lits := []string{"1", "-0", "1.5", `"a"`, "true", "false", "null"}
+	// (a string whose content is itself wrapped in quotation marks: decoding it twice strips them)
+	lits := []string{"1", "-0", "1.5", `"a"`, "true", "false", "null", `"\"q\""`, `"\"\""`}
 	for _, v := range lits {
 		for _, t := range []string{"integer", "float", "string", "boolean", "null", "any"} {
 			w := map[string]string{"integer": "1", "float": "1.5", "string": `"a"`, "boolean": "true", "null": "null", "any": "1"}[t]
